@@ -151,10 +151,10 @@ def prec_cases(names, nops, roots, kind):
         m = E.minimal(t)
         if kind == "table":
             out.append((m, {"src": E.program(_top(t)), "lab": lab, "nt": _nt(t)}))
-        elif kind == "meta":
-            out.append((m, {"min": E.program(_top(t)), "full": E.program(E.full(t)), "lab": lab, "nt": _nt(t)}))
+        elif kind == "meta":        # case ids are unique across the spaces of the property (the ledger is keyed by case id)
+            out.append(("min=full: " + m, {"min": E.program(_top(t)), "full": E.program(E.full(t)), "lab": lab, "nt": _nt(t)}))
         else:
-            out.append((m, {"src": m + ";", "exp": E.sexp(t), "lab": lab, "nt": _nt(t)}))
+            out.append(("tree: " + m, {"src": m + ";", "exp": E.sexp(t), "lab": lab, "nt": _nt(t)}))
     return out
 
 
@@ -431,9 +431,9 @@ def paren_cases(names, nops, roots=None):
             v = _wrap_at(t, path)
             if v == m:
                 continue
-            out.append((v, {"o": orig, "v": E.program(arg(v)), "lab": lab, "w": _node_name(node),
-                            "path": list(path)}))
-        out.append((_wrap_all(t), {"o": orig, "v": E.program(_wrap_all(t)), "lab": lab, "w": "every sub-expression", "path": []}))
+            out.append(("parens: " + v, {"o": orig, "v": E.program(arg(v)), "lab": lab, "w": _node_name(node),
+                                         "path": list(path)}))
+        out.append(("parens: " + _wrap_all(t), {"o": orig, "v": E.program(_wrap_all(t)), "lab": lab, "w": "every sub-expression", "path": []}))
     return out
 
 
@@ -666,7 +666,7 @@ def reject_target_cases():
 
 MALFORMED = {
     "number literal": ["0x", "0X", "0b", "0B", "0o", "0O", "0b2", "0b12", "0o8", "0o78", "0xg", "0x1g", "1e", "1e+", "1E-", "1.e", "1.5e+",
-                       "3in o", "3instanceof o", "1.5.5", "0b1.1", "0x1.8", "1a", "0b1e1", "1..5"],
+                       "3in o", "3instanceof o", "1a", "0b1e1"],
     "string escape": ['"\\x4"', '"\\x"', '"\\xg1"', '"\\u12"', '"\\u"', '"\\u{}"', '"\\u{110000}"', '"\\u{12"', '"\\u{g}"', '"\\u123g"',
                       "'\\x4'", "'\\u{'"],
     "unterminated string": ['"a\nb"', "'a\nb'", '"abc', "'abc", '"abc\\"', "'", '"'],
@@ -919,7 +919,11 @@ def _repl_class(mut):
 def signature(sp, cid, payload, exp, obs):
     name = sp.name
     p = payload if isinstance(payload, dict) else {}
-    eg = cid.replace("\n", "\\n")[:60]
+    eg = cid.replace("\n", "\\n")
+    for _pfx in ("min=full: ", "tree: ", "parens: "):
+        if eg.startswith(_pfx):
+            eg = eg[len(_pfx):]
+    eg = eg[:60]
     if name.startswith("c13_prec"):
         kindname = name.rsplit("_", 1)[1]
         lab = p.get("lab", "?")
